@@ -4,10 +4,16 @@
   The argument: (i) the root written for a document whose outermost element is `<svg>` declares the SVG
   namespace (unless the author supplied another one), so the output is "real SVG"; (ii) real SVG is not
   processed at all (C03) but read and written back; (iii) read-then-write reproduces the bytes.
+  (iii) is proved without side conditions in Props/C05Xml.lean (imported here): the tokenizer reads back
+  exactly the events the writer wrote (`tokenizer_reads_what_was_written`), so the second pass is the
+  identity on every output of the writer whose names are XML names (`second_pass_identity`,
+  `second_pass_identity_checked`); `second_pass_identity_partial` below is the older form with the
+  explicit hypotheses on end tags and DOCTYPE.
 -/
 import Svgdx.Proofs.XmlRaw
 import Svgdx.Proofs.XmlWrite
 import Svgdx.Proofs.CtlInv
+import Svgdx.Props.C05Xml
 
 namespace Svgdx.Props.C05
 open Svgdx Xml
@@ -74,3 +80,7 @@ end Svgdx.Props.C05
 #print axioms Svgdx.Props.C05.author_namespace_kept
 #print axioms Svgdx.Props.C05.second_pass_not_processed
 #print axioms Svgdx.Props.C05.second_pass_identity_partial
+#print axioms Svgdx.Props.C05.tokenizer_reads_what_was_written
+#print axioms Svgdx.Props.C05.second_pass_identity
+#print axioms Svgdx.Props.C05.second_pass_identity_of_names
+#print axioms Svgdx.Props.C05.second_pass_identity_checked
